@@ -2,7 +2,7 @@
 PROP = {
     "props_v": "Props/C10.v",
     "extra_v": ["ClientSyncRun.v"],
-    "suites": [("test", "syncwire")],
+    "suites": [("test", "syncwire"), ("test", "rogue")],
     "run_vo": "ClientSyncRun.vo",
     "assumptions": [
         "signature verification is an arbitrary function verify(key, message, signature) in the theorems; in the correspondence run it is membership in the table of signatures the harness (or the real server) created with glow.Sign -- that secp256k1 rejects everything else is tested, not proved",
